@@ -1,6 +1,6 @@
 #!/bin/sh
 # tools/mb6.sh <pid> [round tag]: confirm the round-N candidates of /tmp/mut<N>-<pid>/_mut/m{1,2,3} and run the property's check on each
 p=$1; rnd=${2:-6}
-case $p in C01|C02|C04|C16|C17) pk="./testscript/ ./cmd/testscript/";; C03|C14|C15) pk="./txtar/ ./cmd/txtar-c/ ./cmd/txtar-x/ ./testscript/ ./goproxytest/";; C05|C11|C12|C13) pk="./cache/";; C06|C07) pk="./lockedfile/...";; C08) pk="./diff/ ./testscript/";; C09|C10) pk="./par/ ./goproxytest/ ./testscript/";; C18|C19) pk="./imports/";; C20) pk="./goproxytest/ ./par/";; esac
+case $p in C01|C02|C04|C16|C17) pk="./testscript/";; C03|C14|C15) pk="./txtar/ ./cmd/txtar-c/ ./cmd/txtar-x/ ./testscript/ ./goproxytest/";; C05|C11|C12|C13) pk="./cache/";; C06|C07) pk="./lockedfile/...";; C08) pk="./diff/ ./testscript/";; C09|C10) pk="./par/ ./goproxytest/ ./testscript/";; C18|C19) pk="./imports/";; C20) pk="./goproxytest/ ./par/";; esac
 cd /verif
 MUTBASE=/tmp/mut$rnd MUTTAG=r${rnd}m tools/mutbatch.sh $p $pk > /tmp/mb$rnd-$p.log 2>&1
